@@ -336,8 +336,9 @@ run_xfer(void *arg)
 typedef struct barg {
 	int tran, proto; // proto: 0 pair0, 1 pair1, 2 push->pull
 } barg;
-static const int BURST[] = { 10, 200, 0, 33, 1000, 7, 126, 70000, 1 };
-#define NBURST ((int) (sizeof(BURST) / sizeof(BURST[0])))
+#define NTAIL 2
+static const int BURST[] = { 10, 200, 0, 33, 1000, 7, 126, 70000, 1, /* waiting tail: */ 5, 300 };
+#define NBURST ((int) (sizeof(BURST) / sizeof(BURST[0])) - NTAIL)
 static void
 run_burst(void *arg)
 {
@@ -359,7 +360,9 @@ run_burst(void *arg)
 	int rb = vs_choose(VK_ENV, 3);
 	if (x->proto != 2)
 		VH_OK(nng_socket_set_int(a, NNG_OPT_RECVBUF, rb));
-	VH_OK(nng_socket_set_int(b, NNG_OPT_SENDBUF, vs_choose(VK_ENV, 2) ? 8 : 0));
+	static const int SB[] = { 0, 8, 1, 2 };
+	int              sb   = SB[vs_choose(VK_ENV, 4)];
+	VH_OK(nng_socket_set_int(b, NNG_OPT_SENDBUF, sb));
 	VH_OK(nng_socket_set_ms(a, NNG_OPT_RECVTIMEO, 100));
 	VH_OK(nng_socket_set_ms(b, NNG_OPT_SENDTIMEO, 20));
 	char         url[200];
@@ -400,7 +403,7 @@ run_burst(void *arg)
 	if (x->tran == T_TCP || x->tran == T_WS)
 		vs_sleep(2);
 	int nb = 4 + vs_choose(VK_ENV, NBURST - 3); // 4 .. NBURST messages before the first receive
-	int accepted[NBURST], na = 0;
+	int accepted[NBURST + NTAIL], na = 0;
 	for (int m = 0; m < nb; m++) {
 		nng_msg *msg;
 		VH_OK(nng_msg_alloc(&msg, (size_t) BURST[m]));
@@ -417,35 +420,75 @@ run_burst(void *arg)
 		accepted[na++] = m;
 		vs_settle();
 	}
-	// now the receiver reads; the rest of the burst follows while it does
-	int got = 0;
+	// two more sends WITHOUT a timeout, issued one after the other: if the path is saturated they
+	// wait while everything accepted above sits in buffers, and go out as the receiver makes room
+	nng_aio *tail[NTAIL];
+	for (int k = 0; k < NTAIL; k++) {
+		nng_msg *msg;
+		int      m = NBURST + k;
+		VH_OK(nng_msg_alloc(&msg, (size_t) BURST[m]));
+		for (int i = 0; i < BURST[m]; i++)
+			((uint8_t *) nng_msg_body(msg))[i] = pat(m, (size_t) i);
+		VH_OK(nng_aio_alloc(&tail[k], NULL, NULL));
+		nng_aio_set_timeout(tail[k], NNG_DURATION_INFINITE);
+		nng_aio_set_msg(tail[k], msg);
+		nng_socket_send(b, tail[k]);
+		vs_settle();
+	}
+	// now the receiver reads; the waiting sends follow while it does
+	nng_msg *rx[NBURST + NTAIL + 2];
+	int      got = 0;
 	for (;;) {
 		nng_msg *msg = NULL;
 		int      rv  = nng_recvmsg(a, &msg, 0);
 		if (rv != 0)
 			break;
-		if (got >= na)
+		if (got >= NBURST + NTAIL)
+			vs_fail("C01:recv:extra", "%s: message %d arrived, only %d were sent",
+			    TN[x->tran], got, nb + NTAIL);
+		rx[got++] = msg;
+	}
+	int waited = 0;
+	for (int k = 0; k < NTAIL; k++) {
+		if (nng_aio_busy(tail[k])) { // (whether it must have completed is C06/C08's business)
+			nng_aio_cancel(tail[k]);
+			waited++;
+		}
+		nng_aio_wait(tail[k]);
+		if (nng_aio_result(tail[k]) == 0)
+			accepted[na++] = NBURST + k;
+		else
+			nng_msg_free(nng_aio_get_msg(tail[k]));
+		nng_aio_free(tail[k]);
+	}
+	if (waited) { // a send that completed between the last receive and the cancel
+		nng_msg *msg = NULL;
+		while (got < NBURST + NTAIL && nng_recvmsg(a, &msg, 0) == 0)
+			rx[got++] = msg;
+	}
+	for (int g = 0; g < got; g++) {
+		nng_msg *msg = rx[g];
+		if (g >= na)
 			vs_fail("C01:recv:extra", "%s: message %d arrived, only %d were accepted",
-			    TN[x->tran], got, na);
-		int m = accepted[got];
+			    TN[x->tran], g, na);
+		int m = accepted[g];
 		if ((int) nng_msg_len(msg) != BURST[m])
 			vs_fail("C01:recv:length",
-			    "%s burst of %d (recvbuf %d): delivery %d has %zu bytes, message %d was "
-			    "sent with %d",
-			    TN[x->tran], nb, rb, got, nng_msg_len(msg), m, BURST[m]);
+			    "%s burst of %d+%d waiting (recvbuf %d sendbuf %d): delivery %d has %zu bytes, "
+			    "message %d was sent with %d (same connection: arrival order = send order)",
+			    TN[x->tran], nb, NTAIL, rb, sb, g, nng_msg_len(msg), m, BURST[m]);
 		for (int i = 0; i < BURST[m]; i++)
 			if (((uint8_t *) nng_msg_body(msg))[i] != pat(m, (size_t) i))
 				vs_fail("C01:recv:altered",
 				    "%s burst: delivery %d (message %d) differs at byte %d",
-				    TN[x->tran], got, m, i);
+				    TN[x->tran], g, m, i);
 		nng_msg_free(msg);
-		got++;
 	}
 	if (got != na)
 		vs_fail("C01:recv:lost",
-		    "%s burst of %d (recvbuf %d): %d accepted by send, %d delivered with the "
+		    "%s burst of %d (recvbuf %d sendbuf %d): %d accepted by send, %d delivered with the "
 		    "connection up",
-		    TN[x->tran], nb, rb, na, got);
+		    TN[x->tran], nb, rb, sb, na, got);
 	vs_nontrivial();
 	vs_outcome("accepted=%d", na);
 	nng_socket_close(b);
